@@ -8,7 +8,6 @@ NOT_APPLICABLE = {
     'C03': 'check not built yet in this round (planned, see DESIGN.md section 5)',
     'C05': 'check not built yet in this round (planned, see DESIGN.md section 5)',
     'C06': 'check not built yet in this round (planned, see DESIGN.md section 5)',
-    'C10': 'check not built yet in this round (planned, see DESIGN.md section 5)',
     'C11': 'check not built yet in this round (planned, see DESIGN.md section 5)',
     'C14': 'check not built yet in this round (planned, see DESIGN.md section 5)',
     'C15': 'check not built yet in this round (planned, see DESIGN.md section 5)',
@@ -186,4 +185,22 @@ PROPS['C07'] = dict(
     require_counters={'config/edgebreaker/geometric-normal': 2000, 'config/edgebreaker/difference': 2000, 'config/mesh-sequential/difference': 2000, 'config/pc-sequential/difference': 2000,
                       'normals_judged': 3000000, 'normals_tiny_input': 1000, 'octahedral_coordinates_checked': 3000000, 'q/2': 500, 'q/30': 500},
     assumptions=[],
+)
+
+PROPS['C10'] = dict(
+    title='Skipping the attribute transform exposes data that reproduces the normal decode',
+    technique='runtime monitoring: metamorphic comparison of an ordinary decode with skip-transform decodes of the same stream, described transform re-applied through the library and an independent dequantizer',
+    level='exploration',
+    level_text=('For generated streams with at least one quantized float attribute (all methods) and for the 25 legacy testdata streams, the stream is decoded once normally and once per subset S of the attribute types present '
+                '(all subsets up to 3 types, sampled beyond): attributes keep position and unique id; skipped quantized attributes must be integer typed with a transform description, and '
+                'AttributeQuantizationTransform/AttributeOctahedronTransform::InitFromAttribute + InverseTransformAttribute as well as an independent dequantizer fed with the described parameters must reproduce the '
+                'ordinary decode bit-exactly per point; attributes outside S, faces and point count must be identical.'),
+    level_note='Integer attributes of a skipped type come back as their int32 portable image without a transform (identity, normalized flag cleared): only numerical equality is demanded for them (the property speaks about quantized attributes); counted in the evidence.',
+    rule='one case = one stream (25 legacy files, then generated (geometry, options)) x its skip subsets. Non-trivial = stream decodes; distinct = hash of the stream.',
+    runs=[dict(variant='plain', harness='c10_skip_transform', cases=dict(quick=40000, thorough=1000000)),
+          dict(variant='asan', harness='c10_skip_transform', tag='asan-slice', cases=dict(quick=3000, thorough=60000))],
+    min_nontrivial=10000,
+    require_counters={'config/edgebreaker': 3000, 'config/kd-tree': 500, 'config/mesh-sequential': 1000, 'config/pc-sequential': 1000, 'config/*/legacy': 20,
+                      'attribute/skipped-quantization': 10000, 'attribute/skipped-octahedral': 1000, 'subsets_checked': 50000},
+    assumptions=['same stream decodes to the same attribute and point order in both decodes (C06)'],
 )
